@@ -431,11 +431,24 @@ func (d *Driver) exploreOne(cv *Conv, check CheckFn, opt ExploreOpt) *ConvReport
 			callArgs = append([]engine.Value{engine.Pointer{Slot: slot}}, pc.Args...)
 		}
 		var res engine.CallResult
-		if env != nil {
-			res = r.CallGuardedClosure(fn, callArgs, env)
-		} else {
-			res = r.CallGuarded(fn, callArgs)
-		}
+		func() {
+			// the inputs have bounded depth: a converter that exceeds the call depth on them does not
+			// terminate (a helper or variable that calls itself with its own argument) - a stack overflow
+			defer func() {
+				if rec := recover(); rec != nil {
+					if ab, ok := rec.(*engine.Abort); ok && ab.Kind == "depth" {
+						res = engine.CallResult{Panic: &engine.TargetPanic{Kind: "stack-overflow", Msg: "the converter does not terminate on an input of bounded depth (" + ab.Reason + ")", Pos: "?"}}
+						return
+					}
+					panic(rec)
+				}
+			}()
+			if env != nil {
+				res = r.CallGuardedClosure(fn, callArgs, env)
+			} else {
+				res = r.CallGuarded(fn, callArgs)
+			}
+		}()
 		r.WriteHook = nil
 		r.GlobalHook = nil
 		pc.Panic = res.Panic
